@@ -6,6 +6,7 @@ every restored tag is compared field by field with what went in (taken from the 
 the layout table, i.e. independently of the encoder). Totality of the quality code is enumerated.
 """
 import os
+import re
 import io
 import contextlib
 from vlib.common import Acc, rng, Scratch
@@ -176,9 +177,11 @@ def run_library(acc, d, dmx, strategy, name, wl, iwl, r, lib, n, single, case_id
             for mi in range(len(mates)):
                 h, s, _, q = disk[mi][idx]
                 max_header = max(max_header, len(h) - 1)
-                if len(h) - 1 > 255:
-                    acc.violate('overlong-header-written-by-demultiplexer', f'{name} lib of {len(lib)} chars: a header of {len(h) - 1} characters was written '
-                                                                            f'instead of being refused (record {idx} of the library)', {'header': h, 'library': lib})
+                if len(h) - 1 > 254:
+                    # a BAM record stores the name length, terminating NUL included, in one byte: 254 characters is the longest storable name
+                    acc.violate('overlong-header-written-by-demultiplexer' if len(h) - 1 > 255 else 'header-of-255-characters-written-by-demultiplexer',
+                                f'{name} lib of {len(lib)} chars: a header of {len(h) - 1} characters was written instead of being refused (record {idx} of '
+                                f'the library); an alignment record stores at most 254', {'header': h, 'library': lib})
                 a = pysam.AlignedSegment(header)
                 try:
                     a.query_name = h[1:]
@@ -202,7 +205,7 @@ def run_library(acc, d, dmx, strategy, name, wl, iwl, r, lib, n, single, case_id
     # pairs whose header was refused by the demultiplexer itself (ValueError in asFastq -> generic exception path) are loud as well
     n_written = len(disk[0])
     txt = out.getvalue()
-    loud_in_demux = txt.count('longer than 255 characters')
+    loud_in_demux = len(re.findall(r'longer than 25[45] characters', txt))
     if loud_in_demux:
         acc.count('length:refused_loudly', loud_in_demux)
     qf = QueryNameFlagger()
